@@ -117,6 +117,23 @@ def family_oscillation(irf, p_osc, p_mc, pfid=False):
     return spec, params
 
 
+def family_split(irf, p_comp, p_mc):
+    # two decay megacomplexes whose k-matrices cover disjoint parts of ONE initial concentration: every megacomplex has
+    # to pick the entries declared for its own compartments, wherever they stand in the item's list
+    comps = ["s1", "s2", "s3", "s4"]
+    jvals = {"s1": "j.1", "s2": "j.2", "s3": "j.3", "s4": "j.4"}
+    order = perm_apply(comps, p_comp)
+    mcs = [("mc_one", {"type": "decay", "k_matrix": ["km1"]}), ("mc_two", {"type": "decay", "k_matrix": ["km2"]})]
+    mcs = perm_apply(mcs, p_mc)
+    spec = {"megacomplex": dict(mcs),
+            "k_matrix": {"km1": {"matrix": {("s2", "s1"): "k.21", ("s2", "s2"): "k.22"}}, "km2": {"matrix": {("s4", "s3"): "k.43", ("s4", "s4"): "k.44"}}},
+            "initial_concentration": {"j1": {"compartments": order, "parameters": [jvals[x] for x in order]}},
+            "dataset": {"d1": {"megacomplex": [m for m, _ in mcs], "initial_concentration": "j1"}}}
+    params = [["k.21", 1.3], ["k.22", 0.25], ["k.43", 0.6], ["k.44", 0.04],
+              ["j.1", 1.0, {"vary": False}], ["j.2", 0.3, {"vary": False}], ["j.3", 0.55, {"vary": False}], ["j.4", 0.15, {"vary": False}]]
+    return spec, params
+
+
 MIXED_POOL = {
     "pfid": ("mc_pfid", {"type": "pfid", "labels": ["o1", "o2"], "frequencies": ["f.1", "f.2"], "rates": ["g.1", "g.2"]}),
     "par": ("mc_par", {"type": "decay-parallel", "compartments": ["a", "b"], "rates": ["k.a", "k.b"]}),
@@ -366,7 +383,7 @@ def plan(tier, seed):
         fams.append(("two_datasets", irf))
     for irf in ("gaussian", "shifted", "dispersed"):
         fams.append(("pfid", irf))
-    fams += [("spectral", "none"), ("spectral", "gaussian"), ("clp_guide", "none")]
+    fams += [("spectral", "none"), ("spectral", "gaussian"), ("clp_guide", "none"), ("split", "none"), ("split", "gaussian")]
     combos = MIXED_QUICK if tier == "quick" else MIXED_COMBOS
     for k, combo in enumerate(combos):
         for irf in (("gaussian", "shifted") if tier == "thorough" else (("gaussian",) if k % 2 == 0 else ("shifted",))):
@@ -396,6 +413,9 @@ def twins(family, irf, rng, nperm):
         combo = tuple(family.split(":")[1].split("+"))
         combos = [(c, sc) for sc in (True, False) for c in p3]
         build = lambda c, sc: family_mixed(irf, combo, c, sc)  # noqa: E731
+    elif family == "split":
+        combos = [(a, c) for a in p4 for c in p2]
+        build = lambda a, c: family_split(irf, a, c)  # noqa: E731
     elif family == "two_datasets":
         combos = [(a, c) for a in p2 for c in p3]
         build = lambda a, c: family_two_datasets(irf, a, c)  # noqa: E731
